@@ -218,7 +218,8 @@ def _enum_class_to_cst(enum_class: type, class_name: str) -> cst.BaseExpression:
     module itself under its alias.  A public top-level enum is referenced by its bare
     name; an enum of the module under test that is nested in a class or private is not
     bound by its bare name, so it is reached through the module alias instead
-    (``alias.Outer.Mode``, ``alias._Hidden``).
+    (``alias.Outer.Mode``, ``alias._Hidden``). The same holds for classes named ``Test*``,
+    which the test file does not import by name because pytest would collect them.
 
     Args:
         enum_class: The enum class to reference.
@@ -233,7 +234,7 @@ def _enum_class_to_cst(enum_class: type, class_name: str) -> cst.BaseExpression:
         module_name
         and enum_class.__module__ == module_name
         and "<locals>" not in qualname
-        and ("." in qualname or qualname.startswith("_"))
+        and ("." in qualname or qualname.startswith(("_", "Test")))
     ):
         expr: cst.BaseExpression = cst.Name(get_module_alias(module_name))
         for part in qualname.split("."):
